@@ -7,4 +7,7 @@ def MIN_WINDOW_SIZE : Nat := 32768
     and Transport._sanitize_packet_size returns clamp_value(MIN_PACKET_SIZE, …, MAX_WINDOW_SIZE) -/
 def remote_max_packet_sanitised : Bool := true
 def sanitise_is_clamp_min_max : Bool := true
+/-- Transport._parse_channel_open hands chan._set_remote_channel the three values parsed from the peer's
+    CHANNEL_OPEN (names assigned exactly once, by m.get_int()) -/
+def peer_open_passes_parsed_values : Bool := true
 end PV.Generated.C19
